@@ -1,11 +1,13 @@
-(* Model of the asynchronous logger: Logger::send / enqueue / stop (include/fix8/logger.hpp:
+(* THE CODE AS IT WAS BEFORE THE REPAIRS c53d854 (enqueue's return value) and 4b85524 (consumer
+   loop).  Kept only for the witness theorems c28_lost_lines_orig_refuted and
+   c28_return_orig_refuted (C28/OrigWitness.v); the model of the current code is C28/LoggerQ.v.
+
+   Model of the asynchronous logger: Logger::send / enqueue / stop (include/fix8/logger.hpp:
    296-312), the consumer loop Logger::operator()() and the "sequence" field of
-   process_logline (runtime/logger.cpp:60-140), FIX8_MPMC_SYSTEM == FIX8_MPMC_FF branch,
+   process_logline (runtime/logger.cpp:60-134), FIX8_MPMC_SYSTEM == FIX8_MPMC_FF branch,
    as an interleaving model in the convention of DESIGN.md section 4 "Concurrency group":
-   [step c t] executes the next atomic action of thread t (one load, one store, one queue
-   operation), a schedule is a list of thread ids, [run sched c = fold_left step sched c].
-   No proofs in this file.  This is the code after the repairs c53d854 and 4b85524; the code
-   before them is C28/LoggerQOrig.v.
+   [step c t] executes the next atomic action of thread t, a schedule is a list of thread ids,
+   [run sched c = fold_left step sched c].  No proofs in this file.
 
    The queue (ff_unbounded_queue<LogElement> over ff::uMPMC_Ptr_Queue) is abstracted as a FIFO
    list with atomic push and pop; that the real multi-producer queue is linearizable to this
@@ -13,13 +15,10 @@
    the licence for the abstraction, not re-proved.  try_push on the unbounded queue always
    succeeds (allocation failure is not modelled).
 
-   Ghost state (never read by the modelled code): [q_src] of a queue element (which submit call
-   it stems from; None for the empty string pushed by stop()), [pushed] (all pushes in order),
-   [wrote] (the elements written), [dropped] (the element whose empty text made the consumer
-   leave its loop), [at_stop] (= [pushed] at the moment stop() executed
-   _stopping.request_stop(): the lines "accepted before stop"), [after_stop] (the pushes since
-   then) and [win] (the pushes made while the consumer was between a try_pop that found the
-   queue empty and the test of _stopping that follows it). *)
+   Ghost state: [q_src] of a queue element (which submit call it stems from; None for the
+   empty string pushed by stop()), [pushed] (all pushes in order), [wrote] (the elements
+   written), [dropped] (the element whose
+   empty text made the consumer leave its loop). *)
 From Coq Require Import ZArith List Bool Arith.
 From F8 Require Import C28.Spec_C28.
 Import ListNotations.
@@ -31,9 +30,8 @@ Inductive tid := P (i : nat) | Cons | Stop.
 (* a producer thread: the submit calls still to make, the number already made, their results *)
 Record pstate := { todo : prog; pidx : nat; rets : list bool }.
 
-(* consumer: at try_pop, after a try_pop that found nothing (about to test _stopping), holding
-   a popped element to write, or exited *)
-Inductive cpc := CPop | CChk | CWrite (x : qelem) | CExit.
+(* consumer: at the loop test, at try_pop, holding a popped element to write, or exited *)
+Inductive cpc := CTest | CPop | CWrite (x : qelem) | CExit.
 (* the thread calling stop(): before, after _stopping.request_stop(), after enqueue(""), after join *)
 Inductive spc := SIdle | SReq | SPushed | SDone.
 
@@ -47,22 +45,20 @@ Record config := {
   file : list (nat * text);      (* the log file: sequence field and text of each line *)
   stopper : spc;
   pushed : list qelem;           (* ghost *)
-  wrote : list qelem;            (* ghost *)
-  dropped : list qelem;          (* ghost *)
-  at_stop : list qelem;          (* ghost *)
-  after_stop : list qelem;       (* ghost *)
-  win : list qelem }.            (* ghost *)
+  wrote : list qelem;            (* ghost: the elements written, in order *)
+  dropped : list qelem }.        (* ghost *)
 
 Definition init (m : Z) (ps : list prog) : config :=
   {| mask := m; prods := map (fun p => {| todo := p; pidx := O; rets := [] |}) ps;
-     queue := []; stopping := false; cons := CPop; seqno := O; file := []; stopper := SIdle;
-     pushed := []; wrote := []; dropped := []; at_stop := []; after_stop := []; win := [] |}.
+     queue := []; stopping := false; cons := CTest; seqno := O; file := []; stopper := SIdle;
+     pushed := []; wrote := []; dropped := [] |}.
 
 (* _msg_queue.try_push(le): always succeeds *)
 Definition try_push (q : list qelem) (x : qelem) : list qelem * bool := (q ++ [x], true).
 
-(* bool enqueue(what, ...) { const LogElement le(...); return _msg_queue.try_push (le); } *)
-Definition enqueue (q : list qelem) (x : qelem) : list qelem * bool := try_push q x.
+(* bool enqueue(what, ...) { const LogElement le(...); return _msg_queue.try_push(le) == 0; } *)
+Definition enqueue (q : list qelem) (x : qelem) : list qelem * bool :=
+  let (q', r) := try_push q x in (q', negb r).          (* "== 0" on a bool *)
 
 Fixpoint upd {A} (l : list A) (i : nat) (x : A) : list A :=
   match l, i with
@@ -70,12 +66,6 @@ Fixpoint upd {A} (l : list A) (i : nat) (x : A) : list A :=
   | _ :: t, O => x :: t
   | a :: t, S j => a :: upd t j x
   end.
-
-(* ghost bookkeeping of one push *)
-Definition g_after (c : config) (x : qelem) : list qelem :=
-  match stopper c with SIdle => after_stop c | _ => after_stop c ++ [x] end.
-Definition g_win (c : config) (x : qelem) : list qelem :=
-  match cons c with CChk => win c ++ [x] | _ => win c end.
 
 (* producer i makes its next call: send(what, lev) { return is_loggable(lev) ? enqueue(what, lev) : true; } *)
 Definition step_prod (c : config) (i : nat) : config :=
@@ -90,52 +80,44 @@ Definition step_prod (c : config) (i : nat) : config :=
             let (q', r) := enqueue (queue c) x in
             {| mask := mask c; prods := upd (prods c) i {| todo := rest; pidx := S (pidx ps); rets := rets ps ++ [r] |};
                queue := q'; stopping := stopping c; cons := cons c; seqno := seqno c; file := file c;
-               stopper := stopper c; pushed := pushed c ++ [x]; wrote := wrote c; dropped := dropped c;
-               at_stop := at_stop c; after_stop := g_after c x; win := g_win c x |}
+               stopper := stopper c; pushed := pushed c ++ [x]; wrote := wrote c; dropped := dropped c |}
           else
             {| mask := mask c; prods := upd (prods c) i {| todo := rest; pidx := S (pidx ps); rets := rets ps ++ [true] |};
                queue := queue c; stopping := stopping c; cons := cons c; seqno := seqno c; file := file c;
-               stopper := stopper c; pushed := pushed c; wrote := wrote c; dropped := dropped c;
-               at_stop := at_stop c; after_stop := after_stop c; win := win c |}
+               stopper := stopper c; pushed := pushed c; wrote := wrote c; dropped := dropped c |}
       end
   end.
 
-Definition set_cons (c : config) (k : cpc) (w : list qelem) : config :=
+Definition set_cons (c : config) (k : cpc) : config :=
   {| mask := mask c; prods := prods c; queue := queue c; stopping := stopping c; cons := k; seqno := seqno c;
-     file := file c; stopper := stopper c; pushed := pushed c; wrote := wrote c; dropped := dropped c;
-     at_stop := at_stop c; after_stop := after_stop c; win := w |}.
+     file := file c; stopper := stopper c; pushed := pushed c; wrote := wrote c; dropped := dropped c |}.
 
 (* the consumer thread:
-     for (;;) {
-        if (!_msg_queue.try_pop(msg_ptr))                  CPop
-        {
-           if (_stopping) break;    // queue drained        CChk   (a separate load: other threads can run in between)
-           hypersleep<h_microseconds>(200); continue;
-        }
+     while (!_stopping) {                                  CTest
+        if (!_msg_queue.try_pop(msg_ptr)) { hypersleep<h_microseconds>(200); continue; }     CPop
         if (msg_ptr->_str.empty()) break;                  (still CPop: thread-local)
         process_logline(msg_ptr);   // "sequence": ++_sequence, then the text, then endl       CWrite
      }                                                                                          *)
 Definition step_cons (c : config) : config :=
   match cons c with
+  | CTest => if stopping c then set_cons c CExit else set_cons c CPop
   | CPop =>
       match queue c with
-      | [] => set_cons c CChk []
+      | [] => set_cons c CTest
       | x :: q' =>
           match q_text x with
           | [] => {| mask := mask c; prods := prods c; queue := q'; stopping := stopping c; cons := CExit;
                      seqno := seqno c; file := file c; stopper := stopper c; pushed := pushed c; wrote := wrote c;
-                     dropped := dropped c ++ [x]; at_stop := at_stop c; after_stop := after_stop c; win := [] |}
+                     dropped := dropped c ++ [x] |}
           | _ :: _ => {| mask := mask c; prods := prods c; queue := q'; stopping := stopping c; cons := CWrite x;
                          seqno := seqno c; file := file c; stopper := stopper c; pushed := pushed c; wrote := wrote c;
-                         dropped := dropped c; at_stop := at_stop c; after_stop := after_stop c; win := [] |}
+                         dropped := dropped c |}
           end
       end
-  | CChk => if stopping c then set_cons c CExit (win c) else set_cons c CPop []
   | CWrite x =>
-      {| mask := mask c; prods := prods c; queue := queue c; stopping := stopping c; cons := CPop;
+      {| mask := mask c; prods := prods c; queue := queue c; stopping := stopping c; cons := CTest;
          seqno := S (seqno c); file := file c ++ [(S (seqno c), q_text x)]; stopper := stopper c;
-         pushed := pushed c; wrote := wrote c ++ [x]; dropped := dropped c;
-         at_stop := at_stop c; after_stop := after_stop c; win := [] |}
+         pushed := pushed c; wrote := wrote c ++ [x]; dropped := dropped c |}
   | CExit => c
   end.
 
@@ -143,17 +125,14 @@ Definition step_cons (c : config) : config :=
 Definition step_stop (c : config) : config :=
   match stopper c with
   | SIdle => {| mask := mask c; prods := prods c; queue := queue c; stopping := true; cons := cons c;
-                seqno := seqno c; file := file c; stopper := SReq; pushed := pushed c; wrote := wrote c;
-                dropped := dropped c; at_stop := pushed c; after_stop := []; win := win c |}
+                seqno := seqno c; file := file c; stopper := SReq; pushed := pushed c; wrote := wrote c; dropped := dropped c |}
   | SReq => let x := {| q_src := None; q_text := [] |} in
             let (q', _) := enqueue (queue c) x in
             {| mask := mask c; prods := prods c; queue := q'; stopping := stopping c; cons := cons c;
-               seqno := seqno c; file := file c; stopper := SPushed; pushed := pushed c ++ [x]; wrote := wrote c;
-               dropped := dropped c; at_stop := at_stop c; after_stop := after_stop c ++ [x]; win := g_win c x |}
+               seqno := seqno c; file := file c; stopper := SPushed; pushed := pushed c ++ [x]; wrote := wrote c; dropped := dropped c |}
   | SPushed => match cons c with
                | CExit => {| mask := mask c; prods := prods c; queue := queue c; stopping := stopping c; cons := cons c;
-                             seqno := seqno c; file := file c; stopper := SDone; pushed := pushed c; wrote := wrote c;
-                             dropped := dropped c; at_stop := at_stop c; after_stop := after_stop c; win := win c |}
+                             seqno := seqno c; file := file c; stopper := SDone; pushed := pushed c; wrote := wrote c; dropped := dropped c |}
                | _ => c                                   (* join blocks *)
                end
   | SDone => c
@@ -174,12 +153,11 @@ Definition observe (c : config) : obs :=
      o_stopped := match stopper c with SDone => true | _ => false end |}.
 
 (* ---- schedules used by the correspondence check ------------------------------------------
-   The harness lets all producers finish and then calls stop() (at once, after a delay, or
-   after it has seen the file complete: with the repaired loop that makes no difference to what
-   must be in the file).  The order in which the producers' lines entered the queue is taken
-   from the observed file ([order]: producer numbers); what the file does not determine is
-   appended: first a producer whose next line is an empty text (if the file stops short, that
-   is what the logger thread met next), then producer by producer. *)
+   The harness lets all producers finish, then calls stop() at once / after a short delay
+   (the consumer has then written some number [k] of lines: taken from the observed file) or
+   after it has seen the file complete ([drain]).  The order in which the producers' lines
+   entered the queue is taken from the observed file ([order]: producer numbers); whatever the
+   file does not determine is appended producer by producer. *)
 
 (* P i repeated until producer i has pushed one more line (calls at disabled levels push nothing) *)
 Fixpoint until_push (m : Z) (i : nat) (p : prog) : list tid * prog :=
@@ -201,20 +179,6 @@ Fixpoint sched_pushes (m : Z) (order : list nat) (ps : list prog) : list tid * l
       end
   end.
 
-(* is the next line producer p would push an empty text? *)
-Fixpoint next_is_marker (m : Z) (p : prog) : bool :=
-  match p with
-  | [] => false
-  | (lev, t) :: rest => if enabled m lev then match t with [] => true | _ => false end
-                        else next_is_marker m rest
-  end.
-
-Fixpoint first_marker (m : Z) (i : nat) (ps : list prog) : option nat :=
-  match ps with
-  | [] => None
-  | p :: more => if next_is_marker m p then Some i else first_marker m (S i) more
-  end.
-
 Fixpoint sched_rest (i : nat) (ps : list prog) : list tid :=
   match ps with
   | [] => []
@@ -223,14 +187,11 @@ Fixpoint sched_rest (i : nat) (ps : list prog) : list tid :=
 
 Definition total_calls (ps : list prog) : nat := fold_right (fun p n => (length p + n)%nat) O ps.
 
-Definition sched_for (m : Z) (order : list nat) (ps : list prog) : list tid :=
+Definition sched_for (drain : bool) (k : nat) (m : Z) (order : list nat) (ps : list prog) : list tid :=
   let (s1, ps1) := sched_pushes m order ps in
-  let (s2, ps2) := match first_marker m O ps1 with
-                   | Some i => sched_pushes m [i] ps1
-                   | None => ([], ps1)
-                   end in
-  let producers := s1 ++ s2 ++ sched_rest O ps2 in
-  producers ++ repeat Cons (3 * S (total_calls ps)) ++ [Stop; Cons; Cons; Cons; Stop; Cons; Cons; Cons; Stop].
+  let producers := s1 ++ sched_rest O ps1 in
+  let consumer := if drain then repeat Cons (3 * S (total_calls ps)) else repeat Cons (3 * k) in
+  producers ++ consumer ++ [Stop; Cons; Cons; Cons; Stop; Cons; Cons; Cons; Stop].
 
-Definition run_case (m : Z) (order : list nat) (ps : list prog) : obs :=
-  observe (run (sched_for m order ps) (init m ps)).
+Definition run_case (drain : bool) (k : nat) (m : Z) (order : list nat) (ps : list prog) : obs :=
+  observe (run (sched_for drain k m order ps) (init m ps)).
